@@ -32,6 +32,9 @@ def run(chk):
     ncase = 220 if chk.quick else 5000
     lines = gen_poly.make_cases(chk.seed * 104729 + 3, ncase, maxdim=3, nobj=3, steps=8, pq=0.38, pobs=0.27)
     lines += gen_poly.make_cases(chk.seed * 31 + 5, ncase // 5, maxdim=2, nobj=4, steps=12, pq=0.3, pobs=0.35, start=ncase)
+    # families aimed at the lazy representation (pending rows, stale flags): each query is the first thing
+    # that happens to a copy of the object in its lazy state; an equal twin built by another route is compared
+    lines += gen_poly.make_lazy_cases(chk.seed * 7 + 11, 260 if chk.quick else 5000, maxdim=3)
     cdir = os.path.join(common.VERIF, "corpus", "C01")
     corpus = []
     if os.path.isdir(cdir):
